@@ -37,6 +37,9 @@ type Case struct {
 	Before  string   `json:"before,omitempty"` // event the same plugin instance processes first (instances live for many events)
 	Fields  []string `json:"fields"`
 	Variant []string `json:"variant,omitempty"`
+	// Instances > 1: that many plugin instances are started on the SAME parsed configuration, one after the
+	// other (a pipeline starts one instance per processor on one config object); the last one processes the events
+	Instances int `json:"instances,omitempty"`
 }
 
 // ---------------------------------------------------------------- selector syntax (reference)
@@ -133,6 +136,20 @@ func gen(t *rapid.T) Case {
 	doc := vkit.GenObject(t, "doc", o, 0)
 	if len(doc.Keys) == 0 && rapid.IntRange(0, 7).Draw(t, "keepempty") > 0 {
 		doc.Set(rapid.SampledFrom(keyPool).Draw(t, "k0"), vkit.GenTree(t, "doc.k0", o, 0))
+	}
+	if rapid.IntRange(0, 19).Draw(t, "very_wide") == 0 {
+		// more fields than any fixed-size scratch buffer an implementation may keep per nesting level
+		for i, n := 0, rapid.IntRange(98, 135).Draw(t, "njunk"); i < n; i++ {
+			doc.Set(fmt.Sprintf("junk%d", i), vkit.JNum("1"))
+		}
+		// keep the interesting fields behind the junk
+		for _, k := range append([]string{}, doc.Keys...) {
+			if !strings.HasPrefix(k, "junk") {
+				v := doc.Get(k)
+				doc.Del(k)
+				doc.Set(k, v)
+			}
+		}
 	}
 	paths := collectPaths(doc)
 
@@ -238,6 +255,9 @@ func gen(t *rapid.T) Case {
 		for _, p := range perm {
 			c.Variant = append(c.Variant, renderSelector(p))
 		}
+	}
+	if rapid.IntRange(0, 3).Draw(t, "instances") == 0 {
+		c.Instances = rapid.IntRange(2, 3).Draw(t, "ninstances")
 	}
 	return c
 }
@@ -404,26 +424,29 @@ func pluginInfo(name string) *pipeline.PluginStaticInfo {
 
 // runPlugin configures a fresh plugin instance with fields and applies it to the
 // documents one after the other. rejected != "" means the configuration was refused.
-func runPlugin(plugin string, docs []string, fields []string) (outs []string, rejected string, err error) {
+func runPlugin(plugin string, docs []string, fields []string, instances int) (outs []string, rejected string, err error) {
 	info := pluginInfo(plugin)
 	cj, _ := json.Marshal(map[string]any{"fields": fields})
 	config, cerr := pipeline.GetConfig(info, cj, map[string]int{"capacity": 64, "gomaxprocs": 1})
 	if cerr != nil {
 		return nil, "GetConfig: " + cerr.Error(), nil
 	}
-	p, _ := info.Factory()
-	ap := p.(pipeline.ActionPlugin)
 	params := &pipeline.ActionPluginParams{
 		PluginDefaultParams: pipeline.PluginDefaultParams{PipelineName: "c18", PipelineSettings: fdkit.DefaultSettings(), MetricCtl: fdkit.MetricCtl("c18")},
 		Logger:              fdkit.NewLogger().Sugar(),
 	}
-	if rec, _ := fdkit.CatchPanic(func() { ap.Start(config, params) }); rec != nil {
-		if fp, ok := rec.(fdkit.FatalPanic); ok {
-			return nil, "Start: " + fp.Msg, nil
+	var ap pipeline.ActionPlugin
+	for i := 0; i < max(1, instances); i++ {
+		p, _ := info.Factory()
+		ap = p.(pipeline.ActionPlugin)
+		if rec, _ := fdkit.CatchPanic(func() { ap.Start(config, params) }); rec != nil {
+			if fp, ok := rec.(fdkit.FatalPanic); ok {
+				return nil, "Start: " + fp.Msg, nil
+			}
+			panic(rec)
 		}
-		panic(rec)
+		defer ap.Stop()
 	}
-	defer ap.Stop()
 	for _, doc := range docs {
 		root, derr := fdkit.NewRoot(doc)
 		if derr != nil {
@@ -490,7 +513,7 @@ func run(c Case) *vkit.Outcome {
 	// check runs a fresh instance over docs and compares every event with the
 	// model; returns the parsed last event (nil if unusable).
 	check := func(which string, fields []string) *vkit.JNode {
-		outs, rejected, err := runPlugin(c.Plugin, docs, fields)
+		outs, rejected, err := runPlugin(c.Plugin, docs, fields, c.Instances)
 		if err != nil {
 			o.Failf(P, c.Plugin+":do-failed", "%s list %q: %v", which, fields, err)
 			return nil
